@@ -212,4 +212,21 @@ theorem gen_merge (s o : PStore) (hs : Inv s) (ho : Inv o) (cap cap' : Int) (gro
     mergeWith_same_content page_spec (add_spec page_spec) grow mf s o cap cap' fuel hs ho hf
   exact ⟨g', s', h1, h2, h3, h4⟩
 
+/-- C14 on the regenerated code: the two reads that reorganise the store (`KeyAtRank`, `ForEach` sort the buffer)
+    return a store that is the image of a model store with the invariant and the SAME content — no later answer
+    can change -/
+theorem gen_reads_preserve_content (s : PStore) (h : Inv s) (cap : Int) (r : Rat) (fuel : Nat)
+    (hf : obsFuel s ≤ fuel) :
+    ∃ s' : PStore, Inv s' ∧ content s' = content s ∧
+      BufferedPaginatedStore.KeyAtRank fuel (toGen s cap) r = .ok (toGen s' cap, (content s).keyAtRank r) ∧
+      BufferedPaginatedStore.ForEach fuel (toGen s cap) (fun _ _ => .ok false) = .ok (toGen s' cap) := by
+  have hkey : keyFuel s ≤ fuel := by unfold obsFuel at hf; omega
+  have hfe : forEachFuel s ≤ fuel := by unfold obsFuel at hf; omega
+  obtain ⟨hi, hw⟩ := PStore.sortRead_spec s h
+  refine ⟨s.sortRead, hi, ?_, ?_, ?_⟩
+  · apply PStore.content_eq_of_lookup _ hi _ (PStore.content_wf s h)
+    intro j; rw [hw j, PStore.lookup_content s h]
+  · rw [KeyAtRank_eq s cap r fuel hkey, (C04Pag.observers_eq s h).2.2.2.2.2 r]; rfl
+  · exact (forEach_all s cap fuel hfe).1
+
 end DDS.Props.C04GenPag
